@@ -11,8 +11,12 @@
 //   EMB meth nm n k d shift tshift <n*n kernel table>
 //         nm = brute | vptree | covertree.  (1) the neighbours the method will use (same
 //         find_neighbors call on KernelDistance, check_connectivity = true): "R nbrs";
-//         (2) everything WM prints for these neighbours; (3) an independent reference
-//         decomposition of (M + M^T)/2: "R refvals"; (4) the method: the statements of
+//         (2) everything WM prints for these neighbours; (3) the GLOBAL ORACLE CALL of
+//         eigendecomposition_impl_dense replicated statement by statement on that matrix
+//         (dense_wm = wm; dense_wm += dense_wm^T; dense_wm /= 2; DenseSelfAdjointEigenSolver):
+//         "R eigvals" (ascending) and "R gE" (n x n, all eigenvectors) - the check validates the
+//         solver contract (full orthonormal decomposition, ascending, constant first column) the
+//         optimality theorems assume, in exact arithmetic, on every call; (4) the method: the statements of
 //         tapkee::embed() and DynamicImplementation::embedUsing for the selected method
 //         (X##Implementation(base).validate(); .embed()): "R emb".
 //   EIG n <n*n symmetric matrix>
@@ -89,6 +93,17 @@ static void local_eigen(const Idx& idx, const tapkee_internal::Neighbors& nb, co
     DenseMatrix r(1, 1);
     r(0, 0) = 1 / sqrt(static_cast<ScalarType>(k));
     print_matrix("rsk", r);
+}
+
+// the oracle call of eigendecomposition_impl_dense (SmallestEigenvalues), replicated
+static void global_eigen(const DenseMatrix& wm)
+{
+    DenseSymmetricMatrix dense_wm = wm;
+    dense_wm += dense_wm.transpose().eval();
+    dense_wm /= 2.0;
+    DenseSelfAdjointEigenSolver solver(dense_wm);
+    print_vector("eigvals", solver.eigenvalues());
+    print_matrix("gE", solver.eigenvectors());
 }
 
 static DenseMatrix weight_matrix(const std::string& meth, Idx& idx, const tapkee_internal::Neighbors& nb,
@@ -216,8 +231,7 @@ int main()
                         if (meth != "lle") local_eigen(idx, nb, kcb);
                         DenseMatrix M = weight_matrix(meth, idx, nb, kcb, d, shift, tshift);
                         print_matrix("M", M);
-                        DenseMatrix S = (M + M.transpose()) / 2.0;
-                        reference_eig(S);
+                        global_eigen(M);
                     }
                     else
                         std::cout << "R ragged-neighbours 0 0" << std::endl;
